@@ -1288,7 +1288,7 @@ class ClassNode(AstNode, NamespaceMixin):
             ]
         )
 
-    def add_namespace(self, **kwargs):
+    def add_namespace(self, *args, **kwargs):
         """Replace method inherited from NamespaceMixin."""
         raise RuntimeError("Cannot add a namespace to a class")
 
@@ -2003,6 +2003,35 @@ def clean_dictionary(ddct):
         if key in ddct and ddct[key] is None:
             ddct[key] = ""
 
+    # Fields with a fixed structure.
+    for key, typ, name in [
+        ("library", str, "a string"),
+        ("cxx_header", str, "a string"),
+        ("language", str, "a string"),
+        ("namespace", str, "a string"),
+        ("decl", str, "a string"),
+        ("options", dict, "a dictionary"),
+        ("format", dict, "a dictionary"),
+        ("attrs", dict, "a dictionary"),
+        ("fattrs", dict, "a dictionary"),
+        ("fstatements", dict, "a dictionary"),
+        ("splicer", dict, "a dictionary"),
+        ("patterns", dict, "a dictionary"),
+        ("doxygen", dict, "a dictionary"),
+        ("declarations", list, "a list"),
+        ("typemap", list, "a list"),
+        ("copyright", list, "a list"),
+        ("fortran_generic", list, "a list"),
+    ]:
+        if key in ddct and ddct[key] is not None and not isinstance(
+                ddct[key], typ):
+            raise RuntimeError("{} must be {}".format(key, name))
+    if "attrs" in ddct and ddct["attrs"]:
+        for key, value in ddct["attrs"].items():
+            if key != "__line__" and not isinstance(value, dict):
+                raise RuntimeError(
+                    "attrs for argument {} must be a dictionary".format(key))
+
     if "default_arg_suffix" in ddct:
         default_arg_suffix = ddct["default_arg_suffix"]
         if not isinstance(default_arg_suffix, list):
@@ -2161,7 +2190,13 @@ def add_declarations(parent, node):
             "class or struct, found in '{}'".format(
                 getattr(parent, "decl", None) or getattr(parent, "name", parent)))
 
+    if not isinstance(node["declarations"], list):
+        raise RuntimeError("declarations must be a list")
     for subnode in node["declarations"]:
+        if not isinstance(subnode, dict):
+            raise RuntimeError(
+                "Each entry of declarations must be a dictionary, found '{}'"
+                .format(subnode))
         if "block" in subnode:
             dct = copy.copy(subnode)
             clean_dictionary(dct)
@@ -2211,16 +2246,21 @@ def create_library_from_dictionary(node):
     Every class must have a name.
     """
 
-    if "copyright" in node:
+    clean_dictionary(node)
+    if node.get("copyright"):
         clean_list(node["copyright"])
 
-    clean_dictionary(node)
     library = LibraryNode(**node)
 
     if "typemap" in node:
         # list of dictionaries
         for subnode in node["typemap"]:
             # Update fields for a type. For example, set cpp_if
+            if (not isinstance(subnode, dict) or "type" not in subnode or
+                not isinstance(subnode.get("fields"), dict)):
+                raise RuntimeError(
+                    "Each entry of typemap must be a dictionary "
+                    "with 'type' and 'fields'")
             key = subnode["type"]
             fields = subnode["fields"]
             def_types = typemap.get_global_types()
